@@ -53,7 +53,7 @@ def variants():
                                    "solver_name", "gpu", "cupy_without_gpu",
                                    # values with which no run can be carried out at all (D33): the loop never advances / the frame schedule is undefined
                                    "dt_init_zero", "dt_init_negative", "dt_init_negative_adaptive_off", "dt_init_nan", "save_every_zero", "save_every_negative", "save_every_fraction")]
-    v += [("empty_terminal", k) for k in ("inside", "outside")]
+    v += [("empty_terminal", k) for k in ("inside", "outside", "vertex_only")]
     v += [("seed", k) for k in ("geometry", "film_scaled", "layer", "units", "probe_points", "name", "no_terminals", "fewer_terminals", "extra_hole", "renamed_terminal", "other_mesh_finer", "other_mesh_more_points", "other_mesh_smoothed")]
     # the ill-posed state is reached on objects that were valid, and were used successfully, before
     v += [("history", k) for k in ("terminal_moved_inside", "terminal_moved_outside", "terminal_points_set", "terminals_reassigned", "options_mutated",
@@ -247,7 +247,18 @@ def run_case(case):
         make = solve_with(okw, skw)
     elif cls == "empty_terminal":
         g = zoo.geometry(case["dev"])
-        extra = tdgl.Polygon("floating", points=circle(0.2, points=12, center=((0.1, 0.1) if var == "inside" else (40.0, 40.0))))
+        if var == "vertex_only":
+            # a terminal so small that it contains one boundary site of the mesh and the centre of no boundary edge: it covers no
+            # boundary length (the documented rule assigns a boundary edge to the terminal that contains its centre), no current can enter
+            em = dev.mesh.edge_mesh
+            bedges = em.edges[em.boundary_edge_indices]
+            pts = dev.points
+            cand = sorted(set(bedges.ravel().tolist()))
+            site = next(i for i in cand[len(cand) // 3:] + cand if not any(t.contains_points(pts[i]) for t in dev.terminals))
+            lmin = min(np.linalg.norm(pts[a] - pts[b]) for a, b in bedges if site in (a, b))
+            extra = tdgl.Polygon("floating", points=box(0.3 * lmin, 0.3 * lmin, center=tuple(pts[site])))
+        else:
+            extra = tdgl.Polygon("floating", points=circle(0.2, points=12, center=((0.1, 0.1) if var == "inside" else (40.0, 40.0))))
         d2 = tdgl.Device("x", layer=dev.layer.copy(), film=g["film"], holes=g["holes"], terminals=list(g["terminals"]) + [extra], probe_points=g["probe_points"])
         d2.mesh = dev.mesh
         skw["terminal_currents"] = dict(zip(names, base_cur))
